@@ -95,7 +95,8 @@ Definition fld (f : list bytes) (i : nat) : bytes := nth i f [].
 (* x, _ = quote.Bunquote(b): on error Bunquote returns its argument *)
 Definition unq (b : bytes) : bytes := match bunquote b with Ok x => x | Err _ => b end.
 
-Definition is_wild (d : bytes) : bool := match d with 42 :: 46 :: _ => true | _ => false end.  (* HasPrefix "*." *)
+Definition is_wild (d : bytes) : bool :=      (* HasPrefix "*." *)
+  match d with a :: b :: _ => (a =? 42) && (b =? 46) | _ => false end.
 
 Definition getdom (b : bytes) : bytes * bool :=
   let d := unq b in if is_wild d then (skipn 2 d, true) else (d, false).
@@ -206,10 +207,8 @@ Definition nonempty (s : bytes) : bool := match s with [] => false | _ => true e
 Definition trunc_label (s : bytes) : bytes := firstn (N.to_nat (nlen s mod 256)) s.
 
 Definition putdomtext (o : toracles) (a : bytes) : bytes :=
-  match a with
-  | [46] => [46]
-  | _ => joinb 46 (filter nonempty (map trunc_label (split_on 46 (bquote (o_isprint o) a) [])))
-  end.
+  if bytes_eqb a [46] then [46]      (* len(a) == 1 && a[0] == '.' *)
+  else joinb 46 (filter nonempty (map trunc_label (split_on 46 (bquote (o_isprint o) a) []))).
 
 Definition oct3 (b : N) : bytes := [92; 48 + (b / 64) mod 8; 48 + (b / 8) mod 8; 48 + b mod 8].  (* \%03o *)
 Definition loctext (lo : bytes) : bytes := flat_map oct3 lo.
